@@ -169,7 +169,7 @@ class Ctx:
 
 
 def load_findings() -> List[dict]:
-    p = VERIF / "known_findings.json"
+    p = Path(os.environ.get("VERIF_KNOWN_FINDINGS_DEV", VERIF / "known_findings.json"))   # (development aid: try out a status change)
     if not p.exists():
         return []
     return json.loads(p.read_text())["findings"]
